@@ -172,6 +172,12 @@ def check(model, rep, tier):
     C01_frames.frames_clause(model, rep, funcs)
     from .C03 import batch_task_order_obligation
     batch_task_order_obligation(model, rep, "4 routing")
+    # the searched rotation set of a (max, step) range is what the user asked for (rule shared with C06)
+    from .C06 import angle_grid_obligations
+    try:
+        angle_grid_obligations(model, rep, model.func("acryo/_rotation.py::_seq_of_max_and_step_to_quat"), "2 frames")
+    except KeyError as e:
+        rep.error(f"anchor vanished: {e}")
     from .C05 import window_cover_obligations
     window_cover_obligations(model, rep, "1 units")
     rep.floor("COVER.window", 3, "(PCC refinement window, three axes)")
